@@ -9,49 +9,49 @@ Definition CFGraph_is_loopless (v1_name : nat) (v2_name : nat) : bool :=
   ((negb (Nat.eqb v1_name v2_name))).
 
 (* chipfiring/CFGraph.py :: CFGraph.get_valence   reads ['self_vertex_total_valence'], writes [], may raise *)
-Definition CFGraph_get_valence (self_vertex_total_valence : dictZ) (v_name : nat) : option Z :=
+Definition CFGraph_get_valence (self_vertex_total_valence : dictZ) (v_name : nat) : pyres (unit) Z :=
   let v := v_name in
   if (negb (d_mem v self_vertex_total_valence)) then
-  None
+  PyExn tt
   else
-  match d_find v self_vertex_total_valence with None => None | Some t1_ =>
-  Some (t1_) end.
+  match d_find v self_vertex_total_valence with None => PyExn tt | Some t1_ =>
+  PyOk (t1_) end.
 
 (* chipfiring/CFGraph.py :: CFGraph.add_edge   reads ['self_graph', 'self_vertex_total_valence', 'self_total_valence'], writes ['self_graph', 'self_vertex_total_valence', 'self_total_valence'], may raise *)
-Definition CFGraph_add_edge (self_graph : dictD) (self_vertex_total_valence : dictZ) (self_total_valence : Z) (v1_name : nat) (v2_name : nat) (valence : Z) : option (dictD * dictZ * Z) :=
+Definition CFGraph_add_edge (self_graph : dictD) (self_vertex_total_valence : dictZ) (self_total_valence : Z) (v1_name : nat) (v2_name : nat) (valence : Z) : pyres (dictD * dictZ * Z) (dictD * dictZ * Z) :=
   if (negb (CFGraph_is_loopless v1_name v2_name)) then
-  None
+  PyExn (self_graph, self_vertex_total_valence, self_total_valence)
   else
   if (valence <=? 0) then
-  None
+  PyExn (self_graph, self_vertex_total_valence, self_total_valence)
   else
   let v1 := v1_name in
   let v2 := v2_name in
   if ((negb (d_mem v1 self_graph)) || (negb (d_mem v2 self_graph))) then
-  None
+  PyExn (self_graph, self_vertex_total_valence, self_total_valence)
   else
-  match d_find v1 self_graph with None => None | Some t1_ =>
+  match d_find v1 self_graph with None => PyExn (self_graph, self_vertex_total_valence, self_total_valence) | Some t1_ =>
   if (d_mem v2 t1_) then
-  match d_find v1 self_graph with None => None | Some t2_ =>
-  match d_find v2 t2_ with None => None | Some t3_ =>
+  match d_find v1 self_graph with None => PyExn (self_graph, self_vertex_total_valence, self_total_valence) | Some t2_ =>
+  match d_find v2 t2_ with None => PyExn (self_graph, self_vertex_total_valence, self_total_valence) | Some t3_ =>
   let self_graph := d_set v1 (d_set v2 (t3_ + valence) t2_) self_graph in
-  match d_find v2 self_graph with None => None | Some t4_ =>
-  match d_find v1 t4_ with None => None | Some t5_ =>
+  match d_find v2 self_graph with None => PyExn (self_graph, self_vertex_total_valence, self_total_valence) | Some t4_ =>
+  match d_find v1 t4_ with None => PyExn (self_graph, self_vertex_total_valence, self_total_valence) | Some t5_ =>
   let self_graph := d_set v2 (d_set v1 (t5_ + valence) t4_) self_graph in
-  match d_find v1 self_vertex_total_valence with None => None | Some t6_ =>
+  match d_find v1 self_vertex_total_valence with None => PyExn (self_graph, self_vertex_total_valence, self_total_valence) | Some t6_ =>
   let self_vertex_total_valence := d_set v1 (t6_ + valence) self_vertex_total_valence in
-  match d_find v2 self_vertex_total_valence with None => None | Some t7_ =>
+  match d_find v2 self_vertex_total_valence with None => PyExn (self_graph, self_vertex_total_valence, self_total_valence) | Some t7_ =>
   let self_vertex_total_valence := d_set v2 (t7_ + valence) self_vertex_total_valence in
   let self_total_valence := (self_total_valence + valence) in
-  Some (self_graph, self_vertex_total_valence, self_total_valence) end end end end end end
+  PyOk (self_graph, self_vertex_total_valence, self_total_valence) end end end end end end
   else
-  match d_find v1 self_graph with None => None | Some t8_ =>
+  match d_find v1 self_graph with None => PyExn (self_graph, self_vertex_total_valence, self_total_valence) | Some t8_ =>
   let self_graph := d_set v1 (d_set v2 valence t8_) self_graph in
-  match d_find v2 self_graph with None => None | Some t9_ =>
+  match d_find v2 self_graph with None => PyExn (self_graph, self_vertex_total_valence, self_total_valence) | Some t9_ =>
   let self_graph := d_set v2 (d_set v1 valence t9_) self_graph in
-  match d_find v1 self_vertex_total_valence with None => None | Some t10_ =>
+  match d_find v1 self_vertex_total_valence with None => PyExn (self_graph, self_vertex_total_valence, self_total_valence) | Some t10_ =>
   let self_vertex_total_valence := d_set v1 (t10_ + valence) self_vertex_total_valence in
-  match d_find v2 self_vertex_total_valence with None => None | Some t11_ =>
+  match d_find v2 self_vertex_total_valence with None => PyExn (self_graph, self_vertex_total_valence, self_total_valence) | Some t11_ =>
   let self_vertex_total_valence := d_set v2 (t11_ + valence) self_vertex_total_valence in
   let self_total_valence := (self_total_valence + valence) in
-  Some (self_graph, self_vertex_total_valence, self_total_valence) end end end end end.
+  PyOk (self_graph, self_vertex_total_valence, self_total_valence) end end end end end.
